@@ -216,6 +216,25 @@ func GoodConstIndexByConstruction(n int) []uint64 {
 	return t
 }
 
+// ---- index of a loop over a sub-slice ------------------------------------------
+
+func BadSubSliceIndex(xs []int, a, b int) int {
+	t := 0
+	for i := range xs[a:b] {
+		t += xs[i]
+	}
+	return t
+}
+
+func GoodSubSliceIndex(xs []int, a, b int) int {
+	t := 0
+	run := xs[a:b]
+	for i := range run {
+		t += run[i]
+	}
+	return t
+}
+
 // ---- E5 provenance ---------------------------------------------------------
 
 type Bits struct{ w []uint64 }
